@@ -134,7 +134,7 @@ CLAIMED = {
     ),
     "C03": dict(
         category="proof",
-        text="PARTIAL CLAIM -- the addressing / layout / coordinate-chain half of C03, not the reassembly statement itself. (1) make_line_subs (peaks, candidates, PAF size and stride symbolic; sample points unrolled 2,3,5): result shape (candidates, points, 2, 3); the first sample point addresses the source peak's cell [row = round(y/stride), col = round(x/stride)] clipped into the tensor; every subscript lies inside the PAF tensor; the two entries of a point address the same cell with channels 2*edge and 2*edge+1 -- the layout generate_pafs is proved to write under C05 (edge-major, x then y). (2) BottomUpInferenceModel.forward / _generate_cms_peaks (batch 1..2; everything else symbolic): the PAF tensor handed to the scorer is the channel-last view of the network's PAF output; for each sample the points, channels and values given to the scorer are, row by row, confidence-map-stride x a strict local maximum above threshold of THAT sample's maps with its channel and value; the scorer's instances of sample b are returned divided by input_scale and by eff_scale[b]; frame/video indices pass through. find_local_peaks enters through its proved contract (C06), grouping is decided under C08.",
+        text="PARTIAL CLAIM -- the addressing / layout / coordinate-chain half of C03, not the reassembly statement itself. (1) make_line_subs (peaks, candidates, PAF size and stride symbolic; sample points unrolled 2,3,5): result shape (candidates, points, 2, 3); the first sample point addresses the source peak's cell [row = round(y/stride), col = round(x/stride)] clipped into the tensor; every subscript lies inside the PAF tensor; the two entries of a point address the same cell with channels 2*edge and 2*edge+1 -- the layout generate_pafs is proved to write under C05 (edge-major, x then y). (2) BottomUpInferenceModel.forward / _generate_cms_peaks (batch 1..2; everything else symbolic): the PAF tensor handed to the scorer is the channel-last view of the network's PAF output; for each sample the points, channels and values given to the scorer are, row by row, confidence-map-stride x a strict local maximum above threshold of THAT sample's maps with its channel and value; the scorer's instances of sample b are returned divided by input_scale and by eff_scale[b]; frame/video indices pass through. (3) score_paf_lines_batch with its three callees replaced by recording ghosts (batch 1..2): each sample's PAFs / peaks / channel indices / candidates go to that sample's calls, stride and line-point count are passed through, and the edge-length limit handed to the scoring step is at least max_edge_length_ratio x max(height, width) x stride. find_local_peaks enters through its proved contract (C06), grouping is decided under C08.",
         note="NOT decided (no claim): the analytic core of C03 -- that on ideal confidence maps / PAFs the true edge outscores every false candidate so that exactly the labelled animals come back (score_paf_lines over sampled Gaussians); get_paf_lines / score_paf_lines / compute_distance_penalty; integral refinement in the bottom-up chain; interior sample points of a line beyond being in bounds. ASSUMED: the vendored interp1d (sleap_nn/inference/utils.py) interpolates linearly between two knots (listed as an assumed repository contract).",
         technique="contract-based deductive verification: symbolic execution of the real Python source against sidecar contracts with ghost network / scorer objects, VCs discharged by z3 (cvc5 for unknowns)",
         design="3/C03",
